@@ -74,6 +74,8 @@ type DBPTInfo struct {
 	node     raftNodeRequest
 	proposeC chan<- []byte // proposed messages, only for raft replication
 	ReplayC  chan *raftconn.Commit
+	// closed once the entries read back at start-up (ReplayC) have been applied: the commit loop waits for it
+	replayDone chan struct{}
 
 	mu       sync.RWMutex
 	database string
